@@ -3,6 +3,8 @@ package utils
 import (
 	"runtime"
 	"time"
+
+	"github.com/zishang520/engine.io/v2/verifhook"
 )
 
 type Timer struct {
@@ -61,6 +63,7 @@ func ClearTimeout(timer *Timer) {
 
 func (t *Timer) Stop() {
 	if t.timer.Stop() {
+		verifhook.At("timer.stop.stopped", t)
 		t.stopCh <- struct{}{}
 	}
 }
@@ -75,6 +78,7 @@ func SetInterval(fn func(), sleep time.Duration) *Timer {
 		for {
 			select {
 			case <-timer.timer.C:
+				verifhook.At("timer.interval.ticked", timer)
 				timer.timer.Reset(timer.sleep)
 				go fn()
 			case <-timer.stopCh:
